@@ -228,90 +228,92 @@ theorem Pend.drvOp {s s' : St} {ob : Obs} {sendOk : Bool} (h : Pend s) (hu : Uni
             · rw [if_neg hji] at hj'
               exact others _ j oj hji hj' hp hm
           · split at hs
-            · -- single
-              simp only [Option.some.injEq, Prod.mk.injEq] at hs
-              obtain ⟨rfl, _⟩ := hs
-              intro j oj hj hp hm
-              have hj' : (dropSenderOpt (s.ops.set i _) (lookup s.resultmap o.id))[j]? = some oj := hj
-              have hnone : lookup s.resultmap (o.id : Int) = none := by
-                cases hl : lookup s.resultmap (o.id : Int) with
-                | none => rfl
-                | some j' =>
-                  obtain ⟨n, hmem, hn⟩ := lookup_some hl
-                  exact absurd (by exact_mod_cast hn) (hnr _ hmem)
-              rw [hnone] at hj'
-              show (oj.id, j) ∈ insert s.resultmap o.id i
-              by_cases hji : j = i
-              · subst hji
-                have : (s.ops.set j _)[j]? = some oj := hj'
-                rw [hset_i] at this; cases this
-                exact mem_insert_iff.mpr (Or.inl rfl)
-              · have := others _ j oj hji hj' hp hm
-                exact mem_insert_iff.mpr (Or.inr ⟨this, hnr _ this⟩)
-            · -- search
-              simp only [Option.some.injEq, Prod.mk.injEq] at hs
-              obtain ⟨rfl, _⟩ := hs
-              intro j oj hj hp hm
-              have hj' : (modifyOp (s.ops.set i _) i _)[j]? = some oj := hj
-              rw [modifyOp_get] at hj'
-              by_cases hji : j = i
-              · subst hji
-                rw [if_pos rfl, hset_i] at hj'
-                simp only [Option.map_some, Option.some.injEq] at hj'
-                rw [← hj'] at hm; cases hm
-              · rw [if_neg hji] at hj'
-                exact others _ j oj hji hj' hp hm
-            · next t hkind =>
-              -- abandon
-              simp only [Option.some.injEq, Prod.mk.injEq] at hs
-              obtain ⟨rfl, _⟩ := hs
-              intro j oj hj hp hm
-              have hj' : (modifyOp (dropSenderOpt (s.ops.set i _) (lookup s.resultmap t)) i _)[j]? = some oj := hj
-              rw [modifyOp_get] at hj'
-              show (oj.id, j) ∈ erase s.resultmap t
-              by_cases hji : j = i
-              · subst hji
-                rw [if_pos rfl] at hj'
-                cases hd : (dropSenderOpt (s.ops.set j _) (lookup s.resultmap t))[j]? with
-                | none => rw [hd] at hj'; cases hj'
-                | some x =>
-                  rw [hd] at hj'
+            · cases hs
+            · split at hs
+              · -- single
+                simp only [Option.some.injEq, Prod.mk.injEq] at hs
+                obtain ⟨rfl, _⟩ := hs
+                intro j oj hj hp hm
+                have hj' : (dropSenderOpt (s.ops.set i _) (lookup s.resultmap o.id))[j]? = some oj := hj
+                have hnone : lookup s.resultmap (o.id : Int) = none := by
+                  cases hl : lookup s.resultmap (o.id : Int) with
+                  | none => rfl
+                  | some j' =>
+                    obtain ⟨n, hmem, hn⟩ := lookup_some hl
+                    exact absurd (by exact_mod_cast hn) (hnr _ hmem)
+                rw [hnone] at hj'
+                show (oj.id, j) ∈ insert s.resultmap o.id i
+                by_cases hji : j = i
+                · subst hji
+                  have : (s.ops.set j _)[j]? = some oj := hj'
+                  rw [hset_i] at this; cases this
+                  exact mem_insert_iff.mpr (Or.inl rfl)
+                · have := others _ j oj hji hj' hp hm
+                  exact mem_insert_iff.mpr (Or.inr ⟨this, hnr _ this⟩)
+              · -- search
+                simp only [Option.some.injEq, Prod.mk.injEq] at hs
+                obtain ⟨rfl, _⟩ := hs
+                intro j oj hj hp hm
+                have hj' : (modifyOp (s.ops.set i _) i _)[j]? = some oj := hj
+                rw [modifyOp_get] at hj'
+                by_cases hji : j = i
+                · subst hji
+                  rw [if_pos rfl, hset_i] at hj'
                   simp only [Option.map_some, Option.some.injEq] at hj'
                   rw [← hj'] at hm; cases hm
-              · rw [if_neg hji] at hj'
-                -- same as a scrub of `t`, on the state in which `i` has been taken
-                obtain ⟨oj0, hoj0, e1, _, _, _, e5, _, e7, e8⟩ := dropSenderOpt_get _ _ j oj hj'
-                rw [hset_j _ j hji] at hoj0
-                have hm0 : oj0.mail = .empty := by
-                  rcases e8 with e | ⟨_, e⟩
-                  · rw [← e]; exact hm
-                  · rw [e] at hm; cases hm
-                have hreg := h j oj0 hoj0 (by rw [← e5]; exact hp) hm0
-                rw [e1]
-                apply mem_erase_of hreg
-                intro hk
-                cases hl : lookup s.resultmap t with
-                | none => exact lookup_none hl _ hreg hk
-                | some j' =>
-                  have : j' = j := lookup_is hu ha hl hreg hk
-                  subst this
-                  rw [hl] at hj'
-                  simp only [dropSenderOpt, dropSender_get, if_pos, hset_j _ j' hji, hoj0, Option.map_some, hm0,
-                    Option.some.injEq] at hj'
+                · rw [if_neg hji] at hj'
+                  exact others _ j oj hji hj' hp hm
+              · next t hkind =>
+                -- abandon
+                simp only [Option.some.injEq, Prod.mk.injEq] at hs
+                obtain ⟨rfl, _⟩ := hs
+                intro j oj hj hp hm
+                have hj' : (modifyOp (dropSenderOpt (s.ops.set i _) (lookup s.resultmap t)) i _)[j]? = some oj := hj
+                rw [modifyOp_get] at hj'
+                show (oj.id, j) ∈ erase s.resultmap t
+                by_cases hji : j = i
+                · subst hji
+                  rw [if_pos rfl] at hj'
+                  cases hd : (dropSenderOpt (s.ops.set j _) (lookup s.resultmap t))[j]? with
+                  | none => rw [hd] at hj'; cases hj'
+                  | some x =>
+                    rw [hd] at hj'
+                    simp only [Option.map_some, Option.some.injEq] at hj'
+                    rw [← hj'] at hm; cases hm
+                · rw [if_neg hji] at hj'
+                  -- same as a scrub of `t`, on the state in which `i` has been taken
+                  obtain ⟨oj0, hoj0, e1, _, _, _, e5, _, e7, e8⟩ := dropSenderOpt_get _ _ j oj hj'
+                  rw [hset_j _ j hji] at hoj0
+                  have hm0 : oj0.mail = .empty := by
+                    rcases e8 with e | ⟨_, e⟩
+                    · rw [← e]; exact hm
+                    · rw [e] at hm; cases hm
+                  have hreg := h j oj0 hoj0 (by rw [← e5]; exact hp) hm0
+                  rw [e1]
+                  apply mem_erase_of hreg
+                  intro hk
+                  cases hl : lookup s.resultmap t with
+                  | none => exact lookup_none hl _ hreg hk
+                  | some j' =>
+                    have : j' = j := lookup_is hu ha hl hreg hk
+                    subst this
+                    rw [hl] at hj'
+                    simp only [dropSenderOpt, dropSender_get, if_pos, hset_j _ j' hji, hoj0, Option.map_some, hm0,
+                      Option.some.injEq] at hj'
+                    rw [← hj'] at hm; cases hm
+              · -- unbind
+                simp only [Option.some.injEq, Prod.mk.injEq] at hs
+                obtain ⟨rfl, _⟩ := hs
+                intro j oj hj hp hm
+                have hj' : (modifyOp (s.ops.set i _) i _)[j]? = some oj := hj
+                rw [modifyOp_get] at hj'
+                by_cases hji : j = i
+                · subst hji
+                  rw [if_pos rfl, hset_i] at hj'
+                  simp only [Option.map_some, Option.some.injEq] at hj'
                   rw [← hj'] at hm; cases hm
-            · -- unbind
-              simp only [Option.some.injEq, Prod.mk.injEq] at hs
-              obtain ⟨rfl, _⟩ := hs
-              intro j oj hj hp hm
-              have hj' : (modifyOp (s.ops.set i _) i _)[j]? = some oj := hj
-              rw [modifyOp_get] at hj'
-              by_cases hji : j = i
-              · subst hji
-                rw [if_pos rfl, hset_i] at hj'
-                simp only [Option.map_some, Option.some.injEq] at hj'
-                rw [← hj'] at hm; cases hm
-              · rw [if_neg hji] at hj'
-                exact others _ j oj hji hj' hp hm
+                · rw [if_neg hji] at hj'
+                  exact others _ j oj hji hj' hp hm
 
 theorem Pend.route {s : St} (h : Pend s) (c : Nat) (f : Frame) : Pend (routeSearch s c f) := by
   have key : ∀ (b : Bool) (chans' : List Chan),
